@@ -961,6 +961,22 @@ func TestReplay(t *testing.T) {
 		},
 		"scalar": func(raw json.RawMessage) *ev.Failure { return nil },
 		"rebind": replayRebind,
+		"reslice": func(raw json.RawMessage) *ev.Failure {
+			var c struct {
+				Args, Lo, Hi int
+				Variadic     bool
+			}
+			json.Unmarshal(raw, &c)
+			return checkReslice(c.Args, c.Lo, c.Hi, c.Variadic)
+		},
+		"hoststruct": func(raw json.RawMessage) *ev.Failure {
+			var c struct{ Instances int }
+			json.Unmarshal(raw, &c)
+			if c.Instances < 1 {
+				c.Instances = 2
+			}
+			return checkHostStructs(c.Instances)
+		},
 		"vargs":  replayVCase,
 		"reentrant": func(raw json.RawMessage) *ev.Failure {
 			var c ReCase
